@@ -237,4 +237,21 @@ theorem Args.compileRev_length : ∀ (a : Args A V), (Args.compileRev a).length 
         Args.compileRev_length r]; omega
 end
 
+mutual
+/-- the extracted composition, read in execution order, is the post-order list of the tree's operations, each functor with
+    exactly the attribute list of its view -/
+theorem View.compile_reverse : ∀ (v : View A V), v.compile.reverse = v.opsPost.map VFun.bindAttrs
+  | .leaf _ => rfl
+  | .alias _ => rfl
+  | .lit _ => rfl
+  | .node f ats args | .snode f ats args => by
+      simp only [View.compile, View.opsPost, List.reverse_cons, Args.compileRev_reverse args, List.map_append,
+        List.map_cons, List.map_nil, VFun.bindAttrs]
+theorem Args.compileRev_reverse : ∀ (a : Args A V), (Args.compileRev a).reverse = a.opsPost.map VFun.bindAttrs
+  | .nil => rfl
+  | .cons v r => by
+      simp only [Args.compileRev, View.dispatch_compile, List.reverse_append, Args.opsPost, List.map_append,
+        View.compile_reverse v, Args.compileRev_reverse r]
+end
+
 end NmVerif.Functional
